@@ -83,3 +83,54 @@ func H_C04_twin() {
 	res, _ := d.Search(context.Background(), verifC04Query(3), &zoekt.SearchOptions{})
 	verifrt.Assert(len(res.Files) == 77, "twin")
 }
+
+// H_C04_concurrent: two searches run concurrently on one searcher whose match-tree cache is on
+// (size 1 or 2), on the engine's thread model (the cache's RWMutex operations are the scheduling
+// points; at most one preemption). Quick: 4 x 1 query pairs; thorough: 4 x 4 and symbolic metadata. Each returns
+// exactly what it returns on a freshly loaded searcher.
+func H_C04_concurrent() {
+	verifrt.ClockConcrete()
+	verifrt.EnableThreads(200)
+	verifrt.PreemptionBound(1)
+	b := verifThreeRepos()
+	b.repoList[0].Metadata = map[string]string{"team": "core"}
+	b.repoList[1].Metadata = map[string]string{"team": "webapp"}
+	if verifrt.Param("symbolicMetadata", 0, 1) == 1 && verifrt.Bool("core") {
+		b.repoList[1].Metadata = map[string]string{"team": "core"}
+	}
+	f := verifWriteShard(b, "verif-compound.zoekt")
+	shared := verifLoad(f)
+	shared.docMatchTreeCache = newDocMatchTreeCache(verifrt.Concretize(verifrt.IntRange("cacheSize", 1, 2)))
+	metaQueries := []int{0, 1, 2, 5}
+	var got [2][]string
+	var ks [2]int
+	done := 0
+	for t := 0; t < 2; t++ {
+		t := t
+		hi := len(metaQueries) - 1
+		if t == 1 {
+			hi = verifrt.Param("secondQueries", 0, 3) // quick: the second search is always meta query 0
+		}
+		ks[t] = metaQueries[verifrt.Concretize(verifrt.IntRange("query", 0, hi))]
+		verifrt.Go(func() {
+			res, err := shared.Search(context.Background(), verifC04Query(ks[t]), &zoekt.SearchOptions{})
+			verifrt.Assert(err == nil, "a concurrent search succeeds")
+			got[t] = verifC04Summary(res)
+			done++
+		})
+	}
+	verifrt.WaitUntil(func() bool { return done == 2 })
+	for t := 0; t < 2; t++ {
+		fresh := verifLoad(f)
+		want, err := fresh.Search(context.Background(), verifC04Query(ks[t]), &zoekt.SearchOptions{})
+		verifrt.Assert(err == nil, "search on a fresh searcher succeeds")
+		w := verifC04Summary(want)
+		verifrt.Assert(len(got[t]) == len(w), "a concurrent search returns as many files as on a freshly loaded index")
+		if len(got[t]) == len(w) {
+			for i := range w {
+				verifrt.Assert(got[t][i] == w[i], "a concurrent search returns the same files and matches as on a freshly loaded index")
+			}
+		}
+	}
+	verifrt.Reach("returned")
+}
